@@ -208,13 +208,32 @@ def random_graph(rng):
     return n, sorted(edges)
 
 
+STD_LIKE = ["TON", "TOF", "TP", "SR", "RS", "CTU", "CTD", "CTUD", "R_TRIG", "F_TRIG", "RTC", "Debounce", "Machine",
+            "timer_1", "Valve", "SEMA"]
+
+
+def rename_nodes(text, n, rng):
+    """Declarations are called what people call them: among others like the standard function blocks (TON, SR, CTU,
+    ...), which are ordinary identifiers that a library may declare itself."""
+    import re
+    k = min(n, rng.randint(1, 4))
+    which = rng.sample(range(n), k)
+    names = rng.sample(STD_LIKE, k)
+    table = dict(zip(which, names))
+    return re.sub(r"\bN(\d+)\b", lambda m: table.get(int(m.group(1)), m.group(0)), text), table
+
+
 def judge(res, probe, kind, n, edges, order, bad_kinds, recase_rng=None, vec=None, text=None):
+    renamed = None
     if text is not None:
         recase_rng = None
     elif kind == "hetero":
         text = realise_hetero(n, edges, order, vec)
     else:
         text = realise(kind, n, edges, order)
+    if recase_rng is not None and recase_rng.random() < 0.5:
+        text, renamed = rename_nodes(text, n, recase_rng)
+        res.count("renamed-like-standard-fb")
     if recase_rng is not None:
         # identifiers are case-insensitive: a reference spelled in another letter case is the same edge
         import vgen
@@ -222,7 +241,8 @@ def judge(res, probe, kind, n, edges, order, bad_kinds, recase_rng=None, vec=Non
     obs = probe.run({"op": "analyze", "files": [["c07.st", text]]})
     res.evaluations += 1
     res.count("kind:" + kind)
-    case = {"kind": kind, "n": n, "edges": edges, "order": order, "text": text, "recased": recase_rng is not None}
+    case = {"kind": kind, "n": n, "edges": edges, "order": order, "text": text, "recased": recase_rng is not None,
+            "renamed": renamed}
     if vec is not None:
         case["node_kinds"] = vec
         res.seen("hetero_kind_sets", "+".join(sorted(set(vec["kinds"]))) + ("+dangling" if vec["dangling"] is not None else ""))
@@ -279,6 +299,19 @@ def shard(shard_i, nshards, payload):
                 rng.shuffle(order)
                 judge(res, probe, kind, 4, edges, order, (), rng if i % 3 == 0 else None,
                       vec=hetero_vector(rng, 4, edges) if kind == "hetero" else None)
+        # deep linear chains (acyclic however long) and the same chains closed into one long cycle
+        deep = [(kind, n, closed) for kind in ("enumalias", "fb", "struct", "mixed", "array") for n in payload["deep"]
+                for closed in (False, True)]
+        for i, (kind, n, closed) in enumerate(deep):
+            if i % nshards != shard_i:
+                continue
+            edges = [(a, a + 1) for a in range(n - 1)] + ([(n - 1, 0)] if closed else [])
+            rng = core.rng_for(seed, "c07deep", i)
+            order = list(range(n))
+            if i % 3:
+                rng.shuffle(order)
+            judge(res, probe, kind, n, edges, order, ())
+            res.seen("deep_chain_lengths", n)
         for i in range(shard_i, payload["n_random"], nshards):
             rng = core.rng_for(seed, "c07r", i)
             n, edges = random_graph(rng)
@@ -298,9 +331,11 @@ def run(tier, seed):
     core.build_probe()
     kinds = ["fb", "struct", "mixed", "array", "enumalias", "hetero", "hetero"]
     if tier == "quick":
-        payload = {"seed": seed, "kinds": kinds, "exhaustive_n": [1, 2, 3], "n_sample4": 2000, "n_random": 400}
+        payload = {"seed": seed, "kinds": kinds, "exhaustive_n": [1, 2, 3], "n_sample4": 2000, "n_random": 400,
+                   "deep": [15, 16, 17, 24, 33, 64, 65, 100, 200]}
     else:
-        payload = {"seed": seed, "kinds": kinds, "exhaustive_n": [1, 2, 3, 4], "n_sample4": 0, "n_random": 20000}
+        payload = {"seed": seed, "kinds": kinds, "exhaustive_n": [1, 2, 3, 4], "n_sample4": 0, "n_random": 20000,
+                   "deep": list(range(13, 70)) + [100, 128, 129, 200, 256, 257, 400]}
     parts = core.run_sharded(shard, payload)
     parts.append(witnesses().to_dict())
     res = core.Result.merge(parts)
@@ -308,7 +343,7 @@ def run(tier, seed):
     extra = {
         "rule": "every directed graph with self-loops on <= %d nodes (%s), sampled 4-node graphs and random graphs on "
                 "5-12 nodes (sparse, dense DAG + back edge, chains, diamonds, cycles unreachable from the first "
-                "declaration), each realised as function-block instance graph, structure graph, mixed alias/structure "
+                "declaration), linear chains of 15-200 declarations (open and closed into one cycle), each realised as function-block instance graph, structure graph, mixed alias/structure "
                 "graph, array-element graph and (twice) as a heterogeneous graph whose nodes are independently function "
                 "blocks, structures, aliases or array-of types with enumeration / subrange / array / string leaves and an "
                 "occasional reference to an undeclared name, declaration order shuffled; judged against a reference DFS cycle test; "
